@@ -5,7 +5,8 @@ import os
 import lib
 import cms_common as cc
 
-ALLOWED_AXIOMS = frozenset(lib.AX_REALS)
+import log_common as _L
+ALLOWED_AXIOMS = frozenset(set(lib.AX_REALS) | set(_L.PRIMITIVES))
 MANIFEST = dict(
     category="proof",
     text="Coq theorems: linear count-min: every counter of every reachable sketch stays in [0,2^32-1] (no intermediate uint32 "
@@ -176,6 +177,8 @@ def run(ctx):
         ctx.case_seen(("log", type(a).__name__, mc, nr, repr(trace)), True)
         ctx.count("log-ceiling")
     ctx.tick("log saturation")
+    import log_checks
+    log_checks.c18(ctx)
 
     # ---------------- base clause: grid of configurations, exact-arithmetic oracle + Coq-Interval certificates
     decimal.getcontext().prec = 80
